@@ -1847,6 +1847,11 @@ size_t rtosc_scan_arg_val(const char* src,
                                                            &type);
                     if(!arg->type) // the first occurrence determines the type
                      arg->type = type;
+                    else if(arg->type == 'd') {
+                        // lossless part of a double: it has no 'd' suffix
+                        type = 'd';
+                        fmtstr = "%lf%n";
+                    }
 
                     switch(type)
                     {
